@@ -37,6 +37,12 @@ T={
 "seed3-C11":("Gt::pow as a 4-bit window method over 64-bit limbs that skips zero limbs, also below the top limb","exponents with an all-zero 64-bit limb below their top limb (2^64, 2^128+5, 2^192)"),
 "seed3-C14":("Fq2::sqrt fast path for purely imaginary input using i^2 = -1 (returns before the final check)","purely imaginary b*i with b/2 a residue: Some(t + t*i) whose square is not the input (unsound)"),
 "seed3-C18":("debug_assert on the lazy-reduction accumulator in sum_of_products with a bound that is false by a narrow margin","Fq2 product whose four Montgomery forms are within a fraction of a percent of q: assertion fires in debug builds only"),
+"seed4-a-sub":("U256::sub: 'self < other' replaced by an early-exit limb comparison that never looks at limb 0","stored values agreeing in limbs 3,2,1 with stored(a)[0] < stored(b)[0] (fraction 2^-192 of all pairs): modulus not added, result wraps, non-reduced and off by one"),
+"seed4-b-invert":("U256::invert: early return when the stored value is 1 ('1 is its own inverse')","exactly one element per field: x = 2^-256 mod p (stored form 1); inverse(x) returns x"),
+"seed4-c-square":("U256::square: the separate carry2 chain of the Montgomery reduction folded into the next limb with a one-limb ripple","limb 5 or 6 of the square of the stored value equal to 2^64-1 with a carry arriving (2^-63 for random operands; stored 2^192-1, 2^255-1; ~2% of boundary-limb stored values); x.pow(2) != x*x"),
+"seed4-d-fq4inv":("Fq4::inverse fast path when the norm to Fq2 lies in Fq: scales by 1/n without conjugating","Fq4 elements with c1 != 0 and a real norm (density 1/q; every Fq4-unitary conj(y)/y; (1+u)+(2+u)v), and Fq12 unitary non-cyclotomic elements through Fq12::inverse"),
+"seed4-e-zminus1":("adder helper z_powers(z) returns (z^2, z^2) when z^2 == 1: z^3 = +1 for z = -1","an addition operand whose Jacobian z is exactly -1 (lambda = -1 rescaling, or the z = x2 - x1 left by the affine adder) added to an independent point"),
+"seed4-f-fromstr":("from_str fast path on plain 256-bit integers for strings of at most 78 digits (should be 77)","78-digit strings whose value is >= 2^256 (e.g. the decimal string of 2^256, '9' x 78): (n mod 2^256) mod p"),
 "seed2-C17":("Fq12::pow squares with a Granger-Scott cyclotomic squaring","pow(x, e >= 2) on any non-cyclotomic element; pairings only ever feed cyclotomic bases"),
 }
 for k,(s,n) in T.items():
